@@ -14,7 +14,8 @@ LEVEL = "exploration"
 RULE = (
     "lattice: every assignment of (lower, upper, precision) from bounds {-1e6,-1,0,1e-9,1,1e6} x precisions "
     "{0,1e-9,0.5,1,2,1e7} for 1-2 parameters (quick) / 1-3 (thorough), list and ndarray spellings, plus malformed outer "
-    "shapes (0-3 sub-lists, ragged lengths, wrong precision length); plus random well-formed spaces (1-6 parameters, any "
+    "shapes (0-3 sub-lists, ragged lengths, wrong precision length); a one-parameter decimal lattice (bounds k/10 for k=-5..20, "
+    "steps 0.1/0.2/0.3/0.5/0.7: ratios one ulp off a whole number, ranges nominally equal to the step); plus random well-formed spaces (1-6 parameters, any "
     "sign, scales 1e-6..1e6, dyadic/decimal/non-dividing steps, range/precision <= 1e5). A case is a block of inputs. "
     "Non-trivial input = two simultaneous defects (precedence matters) or a well-formed range that is an exact multiple "
     "of the precision; distinct by input."
@@ -25,7 +26,7 @@ ASSUMPTIONS = [
     "when (upper+1e-7-lower)/precision is within float error of an integer either length is accepted",
     "axes with more than 1e5 points are outside the quantifier (counted skipped_big)",
 ]
-REQUIRED_COUNTERS = {"rejected_checked": 100, "accepted_checked": 50, "double_defect": 20, "exact_multiple": 10}
+REQUIRED_COUNTERS = {"decimal_lattice_inputs": 3000, "rejected_checked": 100, "accepted_checked": 50, "double_defect": 20, "exact_multiple": 10}
 SHARDS = {"quick": 8, "thorough": 16}
 
 BVALS = [-1e6, -1.0, 0.0, 1e-9, 1.0, 1e6]
@@ -36,6 +37,7 @@ TRIPLES = [(lo, up, p) for lo in BVALS for up in BVALS for p in PVALS]  # 216
 def gen_cases(tier, seed):
     cases = [{"kind": "shapes", "seed": seed}]
     cases += [{"kind": "lattice1", "seed": seed}]
+    cases += [{"kind": "decimal1", "part": k, "seed": seed} for k in range(4)]
     # lattice for 2 params: 216 blocks (first triple fixed per block)
     cases += [{"kind": "lattice2", "first": i} for i in range(len(TRIPLES))]
     if tier == "thorough":
@@ -245,6 +247,16 @@ def run_case(desc, ctx):
             for how in (0, 1, 2, 3, 4):
                 b, p = spell([[t[0]], [t[1]]], [t[2]], how)
                 judge_input(b, p, out)
+    elif kind == "decimal1":
+        # one-decimal bounds and steps: range/precision ratios that are nominally whole numbers but one ulp off in binary, ranges
+        # nominally equal to the precision, last grid points one ulp above the bound
+        tenths = [k / 10 for k in range(-5, 21)]
+        steps = [0.1, 0.2, 0.3, 0.5, 0.7]
+        combos = [(lo, up, st) for lo in tenths for up in tenths for st in steps]
+        for t in combos[desc["part"]::4]:
+            b, p = spell([[t[0]], [t[1]]], [t[2]], 0)
+            judge_input(b, p, out)
+            out["counters"]["decimal_lattice_inputs"] = out["counters"].get("decimal_lattice_inputs", 0) + 1
     elif kind == "lattice2":
         a = TRIPLES[desc["first"]]
         for k, b2 in enumerate(TRIPLES):
